@@ -119,10 +119,57 @@ def judge_notifications(ctx, run):
         ctx.check('session-ended-by-an-ending-event', False, sig='C10:%s-in-%s:ended-the-session-unexpectedly' % (last_kind, last_state), info=s)
 
 
-def h_session(ctx, n_events, n_inject, hold=9):
-    run = C5.explore_session(ctx, n_events, n_inject, hold)
+def h_session(ctx, n_events, n_inject, hold=9, auto_as=False):
+    run = C5.explore_session(ctx, n_events, n_inject, hold, auto_as=auto_as)
     judge_notifications(ctx, run)
     return C5.summary(run)
+
+
+WIRE_FAULTS = {
+    # name: (header bytes after the 16-octet marker are built from (length, type); marker override), expected (code, subcode)
+    'bad-marker': ((19, 4, b'\xff' * 15 + b'\x00'), (1, 1)),
+    'length-18': ((18, 4, None), (1, 2)),
+    'length-4097': ((4097, 2, None), (1, 2)),
+    'keepalive-20': ((20, 4, None), (1, 2)),        # RFC 4271 4.4: a KEEPALIVE is exactly 19 octets
+    'open-28': ((28, 1, None), (1, 2)),             # 4.2: an OPEN is at least 29 octets
+    'update-22': ((22, 2, None), (1, 2)),           # 4.3: an UPDATE is at least 23 octets
+    'notification-20': ((20, 3, None), (1, 2)),     # 4.5: a NOTIFICATION is at least 21 octets
+    'refresh-24': ((24, 5, None), (1, 2)),          # RFC 2918 3: a ROUTE-REFRESH is exactly 23 octets
+    'type-9': ((19, 9, None), (1, 3)),
+}
+
+
+def h_wire_fault(ctx, hold=9):
+    """Header faults as BYTES through the real Connection.reader_async (kits/peer.py ByteConn) under the real Peer: the
+    report the real reader builds, Protocol.read_message / read_open turning it into Notify, Notify being encoded and written.
+    One fault per path, in OPENSENT, OPENCONFIRM or ESTABLISHED."""
+    import struct
+    from kits import session as S
+    state = ctx.pick('state', ['OPENSENT', 'OPENCONFIRM', 'ESTABLISHED'])
+    fault = ctx.pick('fault', sorted(WIRE_FAULTS))
+    (length, mtype, marker), want = WIRE_FAULTS[fault]
+    conf = S.mk_conf(local_as=C5.LOCAL_AS, peer_as=C5.PEER_AS, hold=hold, families=('ipv4 unicast',))
+    neighbor = S.neighbor_from(conf)
+    neighbor.api = dict(neighbor.api)
+    neighbor.reset_rib()
+    good = {'OPENSENT': [], 'OPENCONFIRM': [P.msg(1, C5.open_body(hold=hold))],
+            'ESTABLISHED': [P.msg(1, C5.open_body(hold=hold)), P.KEEPALIVE]}[state]
+    bad = (marker or b'\xff' * 16) + struct.pack('!HB', length, mtype) + bytes(min(max(length - 19, 0), 64))
+    feeder = P.ByteFeeder([('data', b''.join(good) + bad), ('pause', 0.35), ('eof',)])
+    peer = P.new_peer(neighbor, feeder)
+    result = P.drive(peer._run(), max_steps=4000)
+    w = P.WORLD
+    notes = [(c, sc) for _, c, sc in P.notifications()]
+    written = P.written_types()
+    info = {'state': state, 'fault': fault, 'notifications': notes, 'written': ['%s:%d' % t for t in written], 'fsm': ['%s>%s' % t for t in w.fsm], 'result': result[0]}
+    reached = {'OPENSENT': ('CONNECT', 'OPENSENT'), 'OPENCONFIRM': ('OPENSENT', 'OPENCONFIRM'), 'ESTABLISHED': ('OPENCONFIRM', 'ESTABLISHED')}[state]
+    ctx.check('state-reached', reached in w.fsm, sig='C10:wire:harness:state-%s-not-reached' % state, info=info)
+    ctx.cover('wire-fault-%d-%d' % want)
+    ctx.check('right-notification', notes == [want],
+              sig='C10:wire:%s-in-%s:want=%d/%d:got=%s' % (fault, state, want[0], want[1], ','.join('%d/%d' % g for g in notes) or 'none'), info=info)
+    ctx.check('notification-is-last', not written or written[-1][1] == 3, sig='C10:wire:written-after-notification', info=info)
+    ctx.check('transport-closed', w.closed >= 1, sig='C10:wire:transport-left-open', info=info)
+    return [state, fault, notes]
 
 
 def units(tier):
@@ -130,6 +177,9 @@ def units(tier):
     cov = ('notified', 'silent', 'fault-1', 'fault-2', 'fault-3', 'fault-4', 'fault-5')
     us = [Unit('faults/e4-i0', lambda ctx: h_session(ctx, 4, 0), must_cover=cov, max_paths=300000, max_seconds=600, weight=50),
           Unit('faults/e3-i1', lambda ctx: h_session(ctx, 3, 1), must_cover=('notified', 'local-event'), max_paths=300000, max_seconds=600, weight=80)]
+    # `local-as auto`: the first message is read in CONNECT, before our OPEN goes out — a fault there is still answered
+    us.append(Unit('faults/auto-as-e3-i0', lambda ctx: h_session(ctx, 3, 0, auto_as=True), must_cover=('notified', 'silent', 'fault-1', 'fault-2', 'fault-5'), max_paths=300000, max_seconds=600, weight=30))
+    us.append(Unit('wire/header-faults', h_wire_fault, must_cover=('wire-fault-1-1', 'wire-fault-1-2', 'wire-fault-1-3'), weight=20, max_seconds=600))
     if th:
         us.append(Unit('faults/e5-i0', lambda ctx: h_session(ctx, 5, 0), must_cover=cov, max_paths=2000000, max_seconds=1500, weight=200))
         us.append(Unit('faults/e4-i1-h0', lambda ctx: h_session(ctx, 4, 1, hold=0), must_cover=('notified',), max_paths=2000000, max_seconds=1500, weight=200))
